@@ -333,6 +333,67 @@ theorem ternop_perm_invariant (f : V → V → V → V) (a b b' c c' : KV V)
   unfold ternop
   rw [ternOperand_perm hb hnb, ternOperand_perm hc hnc]
 
+/-- in-place ternary forms (lerp_/addcdiv_/addcmul_): same pairing by key, self's keys and order -/
+theorem ternopInplace_pointwise (f : V → V → V → V) (a : KV V) (o1 o2 : Other V) (r : KV V) (hna : (keys a).Nodup)
+    (h : ternopInplace f a o1 o2 = .ok r) :
+    keys r = keys a ∧ ∀ k, get? r k = tri f (get? a k) (opAt o1 k) (opAt o2 k) := by
+  unfold ternopInplace at h
+  cases h1 : ternOperand o1 (keys a) with
+  | error e => simp [h1] at h
+  | ok x =>
+    cases h2 : ternOperand o2 (keys a) with
+    | error e => simp [h1, h2] at h
+    | ok y =>
+      cases hf : foreach3 f (vals a) x y with
+      | error e => simp [h1, h2, hf] at h
+      | ok rs =>
+        simp only [h1, h2, hf] at h
+        injection h with h; subst h
+        obtain ⟨hlen, hm⟩ := ternop_core f a o1 o2 x y rs hna h1 h2 hf
+        refine ⟨keys_zip _ _ hlen.symm, fun k => ?_⟩
+        rw [get?_zip_of_map (keys a) hna _ rs hm k]
+        by_cases hk : k ∈ keys a
+        · simp [hk]
+        · simp [hk, (get?_eq_none_iff a k).mpr hk, tri]
+
+theorem ternopInplace_perm_invariant (f : V → V → V → V) (a b b' c c' : KV V)
+    (hb : b'.Perm b) (hnb : (keys b).Nodup) (hc : c'.Perm c) (hnc : (keys c).Nodup) :
+    ternopInplace f a (.td b') (.td c') = ternopInplace f a (.td b) (.td c) := by
+  unfold ternopInplace
+  rw [ternOperand_perm hb hnb, ternOperand_perm hc hnc]
+
+/-- `default=<tensor>`: the order-free form of permutation invariance (the extra keys come out in hash order in the
+code, so only the key → value map is determined) -/
+theorem binop_default_perm_invariant (f : V → V → V) (a b b' r r' : KV V) (dv : V) (hna : (keys a).Nodup)
+    (hnb : (keys b).Nodup) (hp : b'.Perm b)
+    (h : binop f a (.td b) (.value dv) = .ok r) (h' : binop f a (.td b') (.value dv) = .ok r') (k : Path) :
+    get? r' k = get? r k := by
+  have hnb' : (keys b').Nodup := (keys_perm hp).nodup_iff.mpr hnb
+  rw [binop_default_pointwise f a b r dv hna hnb h k, binop_default_pointwise f a b' r' dv hna hnb' h' k,
+    get?_perm hp hnb]
+  have : (k ∈ keys b') = (k ∈ keys b) := propext (keys_perm hp).mem_iff
+  simp only [this]
+
+/-- a ternary operand tensordict lacking a key of self, or holding an extra one, raises `KeyError` -/
+theorem ternop_key_mismatch_raises (f : V → V → V → V) (a b : KV V) (o2 : Other V)
+    (h : (∃ k ∈ keys a, k ∉ keys b) ∨ a.length < b.length) :
+    ternop f a (.td b) o2 = .error .key ∧ ternopInplace f a (.td b) o2 = .error .key := by
+  have hs : itemsSortedStrict b (keys a) = .error .key := by
+    simp only [itemsSortedStrict]
+    cases hv : valuesSorted b (keys a) with
+    | error e => obtain ⟨he, _⟩ := valuesSorted_err _ _ e hv; simp [he]
+    | ok nv =>
+      rcases h with ⟨k, hk, hb⟩ | hlt
+      · have h1 := valuesSorted_ok _ _ nv hv
+        have hkk : get? b k = none := (get?_eq_none_iff _ k).mpr hb
+        have : ∀ x ∈ (keys a).map (get? b), x.isSome := by
+          rw [h1]; intro x hx; obtain ⟨y, _, e⟩ := List.mem_map.mp hx; simp [← e]
+        have := this _ (List.mem_map.mpr ⟨k, hk, rfl⟩)
+        simp [hkk] at this
+      · have : nv.length = a.length := by rw [valuesSorted_length _ _ nv hv]; simp [keys]
+        simp only [this, hlt, ↓reduceIte]
+  simp [ternop, ternopInplace, ternOperand, hs]
+
 /-- the defect of the pinned tree (DESIGN §7 row 11), proved on the transcription of the OLD code: with the
 operand built in the other order, `x` receives the entry stored under `y`. -/
 theorem ternopPositional_counterexample :
@@ -549,6 +610,42 @@ theorem reduction_batch_and_names (cfg : RedCfg) (batch : Shape) (names : Option
       refine ⟨hd, rfl, rfl, rfl, ?_⟩
       simp only [leafShape]
       exact reduceShape_append batch feat ds0 _ hd
+
+/-- `reduce=True`: the concatenation dim and every reduced dim are batch dims (negative dims count from the batch
+dims, out-of-range dims raise) — the same normalisation as the per-entry branch -/
+theorem reduce_true_dims_are_batch_dims (batch : Shape) (dim : DimArg) (keepdim : Option Bool)
+    (c : Nat) (ds : List Nat) (single : Bool) (kd : Option Bool)
+    (h : furtherReduce batch dim keepdim = .ok (.dims c ds single kd)) :
+    c < batch.length ∧ c ∈ ds ∧ (∀ d ∈ ds, d < batch.length) ∧ kd = keepdim := by
+  unfold furtherReduce at h
+  cases dim with
+  | noDefault => simp at h
+  | none => simp at h
+  | feature => simp at h
+  | int d =>
+    simp only at h
+    cases hd : correctNegDim d batch.length with
+    | error e => simp [hd] at h
+    | ok n =>
+      simp only [hd] at h
+      injection h with h; injection h with h1 h2 h3 h4
+      subst h1; subst h2; subst h4
+      have := correctNegDim_lt d batch.length n hd
+      exact ⟨this, by simp, by simpa using this, rfl⟩
+  | tuple l =>
+    simp only at h
+    cases hm : mapMExcept (fun d => correctNegDim d batch.length) l with
+    | error e => simp [hm] at h
+    | ok ns =>
+      simp only [hm] at h
+      cases ns with
+      | nil => simp at h
+      | cons n rest =>
+        simp only at h
+        injection h with h; injection h with h1 h2 h3 h4
+        subst h1; subst h2; subst h4
+        have hall := mapM_correct_lt l batch.length (n :: rest) hm
+        exact ⟨hall n (by simp), by simp, hall, rfl⟩
 
 /-! ## summary statements and non-vacuity -/
 
